@@ -303,6 +303,25 @@ func (server *SugarDB) setExpiry(ctx context.Context, key string, expireAt time.
 	}
 	server.keysWithExpiry.rwMutex.Unlock()
 
+	// Under the volatile eviction policies only keys with an expiry time are candidates: a key that
+	// has lost its expiry time leaves the eviction cache.
+	if expireAt == (time.Time{}) && server.lfuCache.cache != nil && server.lruCache.cache != nil {
+		switch strings.ToLower(server.config.EvictionPolicy) {
+		case constants.VolatileLFU:
+			if cache, ok := server.lfuCache.cache[database]; ok {
+				cache.Mutex.Lock()
+				cache.Delete(key)
+				cache.Mutex.Unlock()
+			}
+		case constants.VolatileLRU:
+			if cache, ok := server.lruCache.cache[database]; ok {
+				cache.Mutex.Lock()
+				cache.Delete(key)
+				cache.Mutex.Unlock()
+			}
+		}
+	}
+
 	// If touch is true, update the keys status in the cache.
 	if touch {
 		verifhook.AsyncBegin()
